@@ -100,6 +100,16 @@ type c18Result struct {
 	Spanning bool
 }
 
+// c18Payload: the content of inbound message i. In half of the cases the messages are random and unrelated; in the
+// other half they all begin alike, so that with context takeover the peer's compressor refers back to the compressed
+// messages before - and only to those, whatever uncompressed messages went out in between.
+func c18Payload(c c18Case, i, n int) []byte {
+	if c.WrongAt%2 == 1 {
+		return expand(ckText, 11, n)
+	}
+	return expand(ckRandom, uint64(i)+11, n)
+}
+
 func runC18Stream(t fataler, c c18Case) (string, c18Result) {
 	var res c18Result
 	e := newEnv(t)
@@ -111,7 +121,7 @@ func runC18Stream(t fataler, c c18Case) (string, c18Result) {
 		if c.Text {
 			op0 = ref.OpText
 		}
-		_, b, _ := finishMasking([]ref.Frame{{Fin: true, Opcode: op0, Payload: expand(ckRandom, 11, c.In[0])}}, false)
+		_, b, _ := finishMasking([]ref.Frame{{Fin: true, Opcode: op0, Payload: c18Payload(c, 0, c.In[0])}}, false)
 		k := min(c.Early, len(b))
 		spec.Pipelined, late = b[:k], b[k:]
 	}
@@ -171,7 +181,7 @@ func runC18Stream(t fataler, c c18Case) (string, c18Result) {
 			if c.Ending == "wrong-type" && i == c.WrongAt {
 				break
 			}
-			pl := expand(ckRandom, uint64(i)+11, n)
+			pl := c18Payload(c, i, n)
 			if i == 0 && c.Early > 0 {
 				p.sendRaw(late)
 				continue
@@ -207,7 +217,7 @@ func runC18Stream(t fataler, c c18Case) (string, c18Result) {
 		if c.Ending == "wrong-type" && i == c.WrongAt {
 			break
 		}
-		wantIn = append(wantIn, expand(ckRandom, uint64(i)+11, n)...)
+		wantIn = append(wantIn, c18Payload(c, i, n)...)
 	}
 	// outbound writer
 	var wantOut [][]byte
